@@ -184,7 +184,11 @@ def _gen_net(rng, mode, allow_diverging=False):
     if rng.random() < 0.5:
         for si in range(rng.choice([1, 2])):
             u = rng.choice(["", "", "m", "km"])
-            stats.append({"outs": [{"unit": u, "v": _dy(rng)}]})
+            so = {"unit": u, "v": _dy(rng)}
+            if rng.random() < 0.5:
+                # info of the static output carries a time: before / at / after the composition start
+                so["stamp"] = t0 + rng.choice([-365 * DAY, -unit, 0, unit, 2 * unit, 3 * DAY])
+            stats.append({"outs": [so]})
             srcs["1" if u == "" else "L"].append((["s", si, 0], True))
 
     def edge(dim=None, prefer=None, nostatic=False):
@@ -497,6 +501,17 @@ for _ord in ([0, 1], [1, 0]):
     CORPUS.append({"kind": "cells", "order": _ord, "step": 1, "nreq": 2, "prods": [
         {"unit": "m", "v": _fj(10), "dv": _fj(1), "w": _fj(Fraction(1, 2)), "mask_v": None, "mask_w": None},
         {"unit": "m", "v": _fj(100), "dv": _fj(1), "w": _fj(2), "mask_v": [False, False, True, False, False, False], "mask_w": None}]})
+
+# seeded variant C20_l: the info of a static output carries a time stamp that differs from the composition's
+# start ("valid since 1999" / an Info shared with a later starting component): still exactly one publication
+for _st in (-365 * DAY, 2 * DAY):
+    CORPUS.append(_net(
+        [{"steps": [DAY], "outs": [_po("m", 0, 1), _po("", 1, 0)]}],
+        [{"type": "ws", "ins": [_e(("p", 0, 0)), _e(("s", 0, 0))]}],
+        [{"steps": [2 * DAY], "ins": [{"edge": _e(("w", 0, 0)), "static": False}, {"edge": _e(("s", 0, 0)), "static": False},
+                                      {"edge": _e(("s", 1, 0), ("scale", [2, 1])), "static": True}], "pull_at_connect": True}],
+        stats=[{"outs": [{"unit": "", "v": _fj(Fraction(3, 4)), "stamp": _st}]}, {"outs": [{"unit": "km", "v": _fj(5), "stamp": _st + DAY}]}],
+        end=6 * DAY))
 
 # known finding F16: one pull-based component read by two consumers with different steps
 F16_CASE = _net([{"steps": [7], "outs": [_po("m", 1, 1), _po("", 1, 0)]}],
@@ -828,7 +843,10 @@ class _Stat(fm.Component):
 
     def _initialize(self):
         for i, o in enumerate(self.spec["outs"]):
-            self.outputs.add(name=f"O{i}", static=True, time=None, grid=fm.NoGrid(), units=o["unit"])
+            # a static slot may carry a time stamp in its info ("valid since", or an Info shared with a
+            # time component); it is still published exactly once and served for every request time
+            stamp = T(o["stamp"]) if o.get("stamp") is not None else None
+            self.outputs.add(name=f"O{i}", static=True, time=stamp, grid=fm.NoGrid(), units=o["unit"])
         self.create_connector()
 
     def _connect(self, start_time):
@@ -1897,6 +1915,10 @@ class _Walk:
             return self.fail
         if self.case["mode"] == "run" and obs.get("outcome") != "ok":
             return f"Composition.connect/run of a valid composition failed with {obs.get('outcome')}"
+        if obs.get("outcome") != "ok" and not any(op[0] == "phase" for op in obs["ops"]):
+            refused = [op for op in obs["ops"] if op[0] == "pub" and op[4] != ["ok"] and self.nodes[op[1]]["kind"] == "stat"]
+            return (f"Composition.connect of a valid composition failed with {obs.get('outcome')}"
+                    + (f" (static output node {refused[0][1]} was published {1 + len(refused)} times)" if refused else ""))
         return None
 
     def mark_unknown(self, log):
